@@ -174,14 +174,14 @@ def c14(ctx):
     clen = pick(ctx, 4, 5)
     g_parse(ctx, acc, 'c14chars', 'MC_C14', 'CONSTANT MaxLen = %d\nCONSTANT Mode = "chars"\n' % clen + base, PARSE_KINDS_TREE)
     plen = pick(ctx, 2, 3)
-    g_parse(ctx, acc, 'c14pieces', 'MC_C14', 'CONSTANT MaxLen = %d\nCONSTANT Mode = "pieces"\n' % plen + base, PARSE_KINDS_TREE)
+    g_parse(ctx, acc, 'c14pieces', 'MC_C14', 'CONSTANT MaxLen = %d\nCONSTANT Mode = "pieces"\n' % plen + base + 'INVARIANT EmitSweep\n', PARSE_KINDS_TREE)
     # random strings up to length 60 (random behaviours of the same machine)
     g_parse(ctx, acc, 'c14sim', 'MC_C14', 'CONSTANT MaxLen = 60\nCONSTANT Mode = "chars"\n' + base, PARSE_KINDS_TREE,
             extra=['-simulate', 'num=%d' % pick(ctx, 150, 3000), '-depth', '61', '-seed', str(ctx.seed)], workers=1)
     g_parse(ctx, acc, 'c14simp', 'MC_C14', 'CONSTANT MaxLen = 20\nCONSTANT Mode = "pieces"\n' + base, PARSE_KINDS_TREE,
             extra=['-simulate', 'num=%d' % pick(ctx, 150, 3000), '-depth', '21', '-seed', str(ctx.seed)], workers=1)
     return result('model_checking', acc, True,
-                  "all strings up to length %d over the 16-symbol alphabet %%\\{}:pAQnc0178@x and all sequences of up to %d documented directives/escapes/literals, submitted as -printf '<s>' (TLC state graph; InvSegmentation checked in every state), plus random strings to length 60; distinct = vectors with a specified verdict" % (clen, plen),
+                  "all strings up to length %d over the 16-symbol alphabet %%\\{}:pAQnc0178@x and all sequences of up to %d documented directives/escapes/literals, every printable character once after %%, after \\, after %%A %%C %%T, inside %%{}, inside an octal escape and alone, submitted as -printf '<s>' (TLC state graph; InvSegmentation checked in every state), plus random strings to length 60; distinct = vectors with a specified verdict" % (clen, plen),
                   ['oracle: Format.tla FmtParse; 1- and 2-digit octal runs and %{xattr:NAME} with non-alphabetic NAME are unspecified and not judged'])
 
 
@@ -197,10 +197,10 @@ def cfg(consts, invs):
 def c05(ctx):
     acc = Acc()
     cap = pick(ctx, 6, 60)
-    g_parse(ctx, acc, 'c05g', 'MC_C05', cfg(['MemberCap = %d' % cap, 'Contexts = {1, 2, 3, 4, 5}'], ['EmitVector']), PARSE_KINDS_TREE)
+    g_parse(ctx, acc, 'c05g', 'MC_C05', cfg(['MemberCap = %d' % cap, 'Contexts = {1, 2, 3, 4, 5}'], ['EmitVector', 'EmitSweep']), PARSE_KINDS_TREE)
     t_parse(ctx, acc, 'c05t', ['--mode', 'vocab', '--count', str(pick(ctx, 6000, 60000)), '--seed', str(ctx.seed)], PARSE_KINDS_TREE)
     return result('model_checking', acc, True,
-                  'every keyword of Vocab.tla (55) x up to %d members of its (last) argument language x 60 corruptions (junk appended / prefixed / inserted, missing argument, junk glued to the keyword, truncated keyword, keyword glued to argument) x 5 contexts; plus seeded random primaries with mutated arguments validated by TLC; distinct = inputs with a specified verdict' % cap,
+                  'every keyword of Vocab.tla (55) x up to %d members of its (last) argument language x 60 corruptions (junk appended / prefixed / inserted, missing argument, junk glued to the keyword, truncated keyword, keyword glued to argument) x 5 contexts; every printable character once in 26 places where an argument language enumerates letters or digits (type list, who/operator/permission, octal digits, units, signs, keyword tails); plus seeded random primaries with mutated arguments validated by TLC; distinct = inputs with a specified verdict' % cap,
                   ['oracle: Vocab.tla + ArgLang.tla; quoted numeric arguments, 1-2 digit octal modes and glue around "!" "(" are unspecified and not judged',
                    'multi-clause symbolic modes are left to C08'])
 
@@ -272,6 +272,7 @@ def c19(ctx):
     acc = Acc()
     msize = pick(ctx, 4, 6)
     g_tree(ctx, acc, 'c19trees', 'MC_C19', cfg(['MaxSize = %d' % msize, 'Mode = "trees"'], ['InvTwoDefs', 'EmitVector']), timeout=3000)
+    g_tree(ctx, acc, 'c19formats', 'MC_C19', cfg(['MaxSize = 1', 'Mode = "formats"'], ['InvTwoDefs', 'EmitVector']))
     g_tree(ctx, acc, 'c19units', 'MC_C19', cfg(['MaxSize = 1', 'Mode = "units"'], ['InvUnits', 'EmitUnits']))
     g_tree(ctx, acc, 'c19deep', 'MC_C19', cfg(['MaxSize = 40', 'Mode = "trees"'], ['InvTwoDefs', 'EmitVector']),
            extra=['-simulate', 'num=%d' % pick(ctx, 100, 10000), '-depth', '13', '-seed', str(ctx.seed)], workers=1, timeout=3000)
@@ -291,7 +292,7 @@ def c19(ctx):
     for f in wd:
         acc.failures.append(f)
     return result('model_checking', acc, True,
-                  'trees grown from 30 leaves built with every public constructor (including Precedence, nested List, Global/Positional, DefaultPrint, empty and newline-in-the-middle format lists) by wrapping in Not/Precedence or combining with a seed tree under And/Or/List on either side, exhaustively up to %d nodes and by random growth to depth 12; unit tables and count*unit for 6 counts per unit including floor((2^64-1)/unit)' % msize,
+                  'trees grown from 30 leaves built with every public constructor (including Precedence, nested List, Global/Positional, DefaultPrint, empty and newline-in-the-middle format lists) by wrapping in Not/Precedence or combining with a seed tree under And/Or/List on either side, exhaustively up to %d nodes and by random growth to depth 12; every format element list of length <= 3 over 7 element kinds (including the empty literal) in 5 positions; unit tables and count*unit for 6 counts per unit including floor((2^64-1)/unit)' % msize,
                   ['oracle: Ast.tla HasAction/NeedsFramed, each defined recursively and over the node set (InvTwoDefs); the replay builds the value through the public types (json_to_expr) and checks the projection round trip'])
 
 
@@ -321,6 +322,9 @@ def sem_validate(ctx, acc, name, trace, kinds, timeout=3000, consts=''):
     for r in recs[:2]:
         samples.append({'tree': r['t'], 'compile': r['c']['st'],
                         'program': ctx.t.text_of(r['c']['renders'][0].get('text', []))[:400] if r['c']['st'] == 'ok' else None})
+    if ncompiled > 0 and nfiles == 0 and 'Static = TRUE' not in consts:
+        # vacuity guard: programs were compiled but not one of them was executed on a file
+        raise ctx.t.ToolError('stage %s: %d programs compiled, none executed (all held to be of unspecified meaning?)' % (name, ncompiled))
     acc.add_stage(name, st, len(recs), samples, {'programs_compiled': ncompiled, 'file_evaluations': nfiles})
     acc.programs = getattr(acc, 'programs', 0) + ncompiled
     acc.file_evals = getattr(acc, 'file_evals', 0) + nfiles
@@ -367,7 +371,7 @@ def tv_result(acc, rule, assumptions, level='translation_validation'):
 
 RUNTIME_ASSUMPTIONS = [
     'runtime model (SchemeEval.tla) of code that is not in the repository: make-printer p m t = lock m; write s; write t; unlock m, returning true; display is one atomic write; call-with-name / call-with-relative-path apply their procedure to the field; round-up-power-of-2 x m rounds x up to a multiple of m; print-relative-path / print-file-fid write one line directly to standard output and return true; lipe-scan-break requests the end of the scan and returns true; format directives ~a ~d ~o ~f ~~ ~% as in Guile',
-    "find's rules as transcribed in FindSem.tla; paths follow the project's conventions (-print and %P relative path, %p absolute path, %h directory of the relative path); times print as epoch seconds; -perm /000 is not judged",
+    "find's rules as transcribed in FindSem.tla; paths follow the project's conventions (-print and %P relative path, %p absolute path, %h directory of the relative path); times print as epoch seconds; -perm /MODE with no bit in MODE is false for every file (the property's 'any given bit set'; GNU find >= 4.5.12 differs)",
 ]
 
 
@@ -384,8 +388,8 @@ def c02(ctx):
     design_check(ctx, acc, 'mix', pick(ctx, 2, 3))
     gt_sem(ctx, acc, 'c02single', 'single', 1, SEM_KINDS)
     gt_sem(ctx, acc, 'c02ops', 'ops', pick(ctx, 3, 4), SEM_KINDS, extra_rec=['--warmup'])
-    gt_sem(ctx, acc, 'c02pairs', 'pairs', 1, SEM_KINDS, consts='CONSTANT MaxFiles = 60\nCONSTANT Static = FALSE\n')
-    t_sem(ctx, acc, 'c02rand', ['--count', str(pick(ctx, 250, 6000)), '--seed', str(ctx.seed), '--size', '12', '--no-direct'], SEM_KINDS)
+    gt_sem(ctx, acc, 'c02pairs', 'pairs', 2, SEM_KINDS, consts='CONSTANT MaxFiles = 60\nCONSTANT Static = FALSE\n')
+    t_sem(ctx, acc, 'c02rand', ['--count', str(pick(ctx, 500, 6000)), '--seed', str(ctx.seed), '--size', '12', '--no-direct'], SEM_KINDS)
     return tv_result(acc, 'every supported primary alone with every generated member of its argument language plus 50 boundary-rich arguments; all trees up to %d nodes over 8 representative primaries and not/and/or/list; seeded random trees up to 12 nodes over the full supported vocabulary; each program executed on the directed files of Backend.tla DirectedFiles (3 base files + every leaf variant around each)' % pick(ctx, 3, 4), [])
 
 
@@ -393,7 +397,7 @@ def c09(ctx):
     acc = Acc()
     design_check(ctx, acc, 'c09', pick(ctx, 3, 4))
     gt_sem(ctx, acc, 'c09trees', 'c09', pick(ctx, 3, 5), SEM_KINDS)
-    gt_sem(ctx, acc, 'c09pairs', 'pairacts', 1, SEM_KINDS, consts='CONSTANT MaxFiles = 24\nCONSTANT Static = FALSE\n')
+    gt_sem(ctx, acc, 'c09pairs', 'pairacts', 1, SEM_KINDS, consts='CONSTANT MaxFiles = 60\nCONSTANT Static = FALSE\n')
     t_sem(ctx, acc, 'c09rand', ['--count', str(pick(ctx, 300, 5000)), '--seed', str(ctx.seed), '--size', '10', '--profile', 'c09'], SEM_KINDS)
     return tv_result(acc, 'all trees up to %d nodes over {true, false, a name test, print, quit, a file print} and not/and/or/list (exhaustive), plus seeded random trees up to 10 nodes over the same leaves; outputs on files that make the name test true and false compared with FindSem.tla SemTop (implicit -print iff no action node anywhere)' % pick(ctx, 3, 5), [])
 
@@ -403,17 +407,37 @@ def c10(ctx):
     gt_sem(ctx, acc, 'c10acts', 'acts', pick(ctx, 2, 3), ROUTE_KINDS)
     t_sem(ctx, acc, 'c10rand', ['--count', str(pick(ctx, 200, 3000)), '--seed', str(ctx.seed), '--size', '9', '--profile', 'actions'], ROUTE_KINDS)
     t_sem(ctx, acc, 'c10affix', ['--profile', 'affix', '--no-warmup'], ROUTE_KINDS, consts='CONSTANT MaxFiles = 4\nCONSTANT Static = FALSE\n')
+    t_sem(ctx, acc, 'c10mid', ['--count', str(pick(ctx, 40, 400)), '--seed', str(ctx.seed + 3), '--profile', 'chain', '--size', '30'], ROUTE_KINDS, consts='CONSTANT MaxFiles = 3\nCONSTANT Static = FALSE\n')
     t_sem(ctx, acc, 'c10chain', ['--count', str(pick(ctx, 4, 40)), '--seed', str(ctx.seed), '--profile', 'chain', '--size', '300'], ROUTE_KINDS, consts='CONSTANT MaxFiles = %d\nCONSTANT Static = FALSE\n' % pick(ctx, 3, 8))
     return tv_result(acc, 'all multisets of up to %d actions from 12 action kinds (stdout/file x newline/NUL/format, file names from a pool of 3, print-file-fid, quit) as AND chain, OR chain and mixed; seeded random operator trees rich in actions; chains with up to 300 resources (destinations and matchers); checked: framed iff NeedsFramed, plain => no table, injective table equal to the required targets, stream decodes into frames whose routed records equal FindSem outputs' % pick(ctx, 2, 3), [])
 
 
 def c12(ctx):
     acc = Acc()
-    gt_sem(ctx, acc, 'c12unsup', 'unsup', 1, REFUSE_KINDS, consts='CONSTANT MaxFiles = 3\nCONSTANT Static = FALSE\n')
+
+    def has_clear(t):
+        if isinstance(t, dict):
+            return (t.get('el') == 'esc' and t.get('x') == 'c') or any(has_clear(v) for v in t.values())
+        if isinstance(t, list):
+            return any(has_clear(v) for v in t)
+        return False
+
+    def omitted(stage, verdicts):
+        # \c may be refused or implemented (nothing more is printed from that format).  When it is ACCEPTED, a program
+        # whose output differs from find's is one in which the construct was omitted or replaced: a C12 failure
+        recs = [json.loads(l) for l in open('%s/%s.ndjson' % (ctx.work, stage)) if l.startswith('{')]
+        for v in verdicts:
+            r = recs[v['idx'] - 1]
+            if set(v['kinds']) & {'outs-mismatch', 'runtime-error', 'malformed-program'} and r['c']['st'] == 'ok' and has_clear(r['t']):
+                acc.failures.append({'kinds': ['accepted-unsupported'], 'tree': r['t'], 'o': r['o'], 'stage': stage, 'file': v.get('file'),
+                                     'info': 'a format with \\c was accepted but the program does not stop printing there (%s)' % ','.join(v['kinds']),
+                                     'text': ctx.t.text_of(r['c']['renders'][0].get('text', []))})
+
+    omitted('c12unsup', gt_sem(ctx, acc, 'c12unsup', 'unsup', 1, REFUSE_KINDS, consts='CONSTANT MaxFiles = 3\nCONSTANT Static = FALSE\n'))
     gt_sem(ctx, acc, 'c12compl', 'complement', 1, REFUSE_KINDS, consts='CONSTANT MaxFiles = 3\nCONSTANT Static = FALSE\n')
     gt_sem(ctx, acc, 'c12single', 'single', 1, REFUSE_KINDS, consts='CONSTANT MaxFiles = 3\nCONSTANT Static = FALSE\n')
-    t_sem(ctx, acc, 'c12rand', ['--count', str(pick(ctx, 1500, 30000)), '--seed', str(ctx.seed), '--size', '9', '--unsupported', '--no-direct'], REFUSE_KINDS, consts='CONSTANT MaxFiles = 3\nCONSTANT Static = FALSE\n')
-    return tv_result(acc, 'every unsupported construct (13 tests, 3 actions, 7 format directives, the positional option, \\c) alone and in 6 positions (under not, dead AND/OR branches, beside actions); every supported primary alone (must compile); seeded random trees with 0..3 unsupported constructs; expected from the supported/unsupported partition of Vocab.tla/Format.tla; an accepted program is read and must have two top-level forms', ['the error must contain the variant name or the keyword of one offending construct'])
+    omitted('c12rand', t_sem(ctx, acc, 'c12rand', ['--count', str(pick(ctx, 1500, 30000)), '--seed', str(ctx.seed), '--size', '9', '--unsupported', '--no-direct'], REFUSE_KINDS, consts='CONSTANT MaxFiles = 3\nCONSTANT Static = FALSE\n'))
+    return tv_result(acc, 'every unsupported construct (13 tests, 3 actions, 7 format directives, the positional option, \\c) alone and in 6 positions (under not, dead AND/OR branches, beside actions); every supported primary alone (must compile); seeded random trees with 0..3 unsupported constructs; expected from the supported/unsupported partition of Vocab.tla/Format.tla; an accepted program is read and must have two top-level forms; a format with \\c, which may be refused or implemented, must when accepted stop printing there', ['the error must contain the variant name or the keyword of one offending construct'])
 
 def c07(ctx):
     acc = Acc()
@@ -464,10 +488,10 @@ def c07(ctx):
 def c08(ctx):
     acc = Acc()
     c08_front(ctx, acc)
-    gt_sem(ctx, acc, 'c08sem', 'perms', pick(ctx, 1, 2), SEM_KINDS)
-    gt_sem(ctx, acc, 'c08pairs', 'pairs', 1, SEM_KINDS, consts='CONSTANT MaxFiles = 60\nCONSTANT Static = FALSE\n')
+    gt_sem(ctx, acc, 'c08sem', 'perms', pick(ctx, 1, 3), SEM_KINDS)
+    gt_sem(ctx, acc, 'c08pairs', 'permpairs', 2, SEM_KINDS, consts='CONSTANT MaxFiles = 60\nCONSTANT Static = FALSE\n')
     r = result('model_checking', acc, True,
-               'all 4096 octal values in 3- and 4-digit spelling, all 315 single clauses, two-clause lists (%s), each under the three prefixes, expected mode and check kind from ArgLang.tla (chmod fold from mode 0; InvChmod/InvOracleAgrees checked in every state); seeded 1..4-clause lists validated by TLC; back end: octal values and single clauses x 3 prefixes compiled and executed on files whose mode is the expected mode, that mode with each of the 12 bits flipped, 0, 07777 and with other type bits' % pick(ctx, '1 in 16 stratified slice', 'all 99,225'),
+               'all 4096 octal values in 3- and 4-digit spelling, all 315 single clauses, two-clause lists (%s), each under the three prefixes, expected mode and check kind from ArgLang.tla (chmod fold from mode 0; InvChmod/InvOracleAgrees checked in every state); seeded 1..4-clause lists validated by TLC; back end: %s and all single clauses x 3 prefixes compiled and executed on files whose mode is the expected mode, that mode with each of the 12 bits flipped, 0, 07777 and with other type bits; pairs of -perm tests with related modes (equal, subset, superset, overlapping, disjoint) under one operator' % (pick(ctx, '1 in 16 stratified slice', 'all 99,225'), pick(ctx, '25 boundary octal modes', 'all 4096 octal modes')),
                RUNTIME_ASSUMPTIONS)
     r['coverage']['programs'] = getattr(acc, 'programs', 0)
     r['coverage']['disagreements_checked'] = getattr(acc, 'file_evals', 0)
@@ -498,7 +522,7 @@ def c04(ctx):
     binp = ctx.t.build('dev')
     mlen = pick(ctx, 2, 3)
     trace = '%s/c04.ndjson' % ctx.work
-    cmd = ctx.t.tlc_cmd('c04_gen', 'MC_C04', cfg(['MaxLen = %d' % mlen], ['EmitTree']), workers=8)
+    cmd = ctx.t.tlc_cmd('c04_gen', 'MC_C04', cfg(['MaxLen = %d' % mlen], ['EmitTree', 'EmitSingles']), workers=8)
     tl = subprocess.Popen(cmd, cwd=ctx.t.SPEC, stdout=subprocess.PIPE, stderr=subprocess.STDOUT)
     with open(trace, 'w') as f:
         rp = subprocess.run([binp, 'compile-trees'], stdin=tl.stdout, stdout=f, stderr=subprocess.PIPE, text=True, timeout=1800)
@@ -510,7 +534,9 @@ def c04(ctx):
     recs = [json.loads(l) for l in open(trace) if l.startswith('{')]
     for v in verdicts:
         r = recs[v['idx'] - 1]
-        if r.get('slot', '').startswith('fmt-') and 'outs-mismatch' in v['kinds']:
+        # (a literal holding U+001E, the byte that separates payload and tag in a frame, cannot be told from the
+        # separator by ANY decoder of the stream: the program prints it verbatim, which is all C04 asks; not judged)
+        if r.get('slot', '').startswith('fmt-') and 'outs-mismatch' in v['kinds'] and 30 not in r.get('u', []):
             acc.failures.append({'kinds': ['outs-mismatch'], 'tree': r['t'], 'o': r['o'], 'stage': 'c04lex', 'slot': r['slot']})
     # pairs of related user strings (one the other plus an affix): each must still appear as its own literal
     t_sem(ctx, acc, 'c04affix', ['--profile', 'affix', '--no-warmup'], {'user-string-missing', 'malformed-program', 'compile-panic'}, consts='CONSTANT MaxFiles = 1\nCONSTANT Static = FALSE\n')
@@ -518,7 +544,7 @@ def c04(ctx):
     t_sem(ctx, acc, 'c04rand', ['--count', str(pick(ctx, 300, 5000)), '--seed', str(ctx.seed), '--size', '4', '--hostile', '--no-direct', '--paths', 'hostile'],
           {'user-string-missing', 'malformed-program', 'runtime-error', 'no-scan-call', 'mdt-mismatch', 'compile-panic', 'render-panic', 'iomap-targets-wrong'},
           consts='CONSTANT MaxFiles = 3\nCONSTANT Static = FALSE\n')
-    r = tv_result(acc, 'all strings up to length %d over the 18-symbol alphabet {" \\ ~ %% ( ) ; # LF U+0001 e-acute a SP * [ \' | TAB} in 15 string-carrying slots (name/iname/path/ipath patterns, pool, xattr name, both -xattr-match arguments, output file names, literal format text at the end / in the middle / without newline, %%{xattr:NAME}, device path), injected through the public constructors; each compared with the same construct carrying a benign marker of the same wildcard class; plus seeded random hostile strings up to length 5 in random trees rendered for hostile device paths' % mlen,
+    r = tv_result(acc, 'all strings up to length %d over the 18-symbol alphabet {" \\ ~ %% ( ) ; # LF U+0001 e-acute a SP * [ \' | TAB} in 15 string-carrying slots (name/iname/path/ipath patterns, pool, xattr name, both -xattr-match arguments, output file names, literal format text at the end / in the middle / without newline, %%{xattr:NAME}, device path), injected through the public constructors, and every code point 1..159 plus 23 representatives of the classes beyond once in every slot; each compared with the same construct carrying a benign marker of the same wildcard class; plus seeded random hostile strings up to length 5 in random trees rendered for hostile device paths' % mlen,
                   ["oracle: SchemeRead.tla (Guile's lexical syntax incl. its string escape set): exactly two top-level forms, equal skeletons, string literals equal except where the marker stood and decoding to the user string ('~' doubled in format templates), executed outputs equal find's for the format slots"],
                   level='model_checking')
     return r
@@ -681,7 +707,7 @@ def c15(ctx):
 
 def c20(ctx):
     acc = Acc()
-    trace = record_procs(ctx, 'c20api', ['--count', str(pick(ctx, 25, 400)), '--seed', str(ctx.seed), '--paths', 'hostile'], 1)
+    trace = record_procs(ctx, 'c20api', ['--count', str(pick(ctx, 25, 400)), '--seed', str(ctx.seed), '--paths', 'hostile', '--no-failprobe'], 1)
     api_validate(ctx, acc, 'c20api', trace, PURE_KINDS, timeout=6000)
     cov = acc.coverage(False, 'seeded compiled expressions x 8 renderings for device paths {/, /dev/mdt0, with a blank, with a double quote, with a backslash, trailing backslash, non-ASCII and ~;(, / again} interleaved with destination-table queries, each compiled 3 times; checked by Api.tla RenderKinds: equal skeletons, string literals equal except one position, that literal is the first argument of the scan call and decodes to the path, same path => identical text, table queries never change',
                        {'evaluations': acc.traces, 'distinct_nontrivial': acc.distinct})
